@@ -12,14 +12,24 @@ CallOK(words, t) ==
   /\ t[4] = "ok"
   /\ Len(t[5]) = Cardinality(Got(t))
   /\ Got(t) = IF t[3] THEN MorphyInit(words, t[1], t[2]) ELSE MorphyUninit(t[1], t[2])
+\* a Wordnet with this lemmatizer finds the union of what each proposed (pos, forms) pair finds
+\* (the query itself under the requested part of speech when nothing is proposed)
+WordnetOK(words, t) ==
+  Len(t) < 6 \/
+  LET M == Got(t)
+      cands == IF M = {} THEN {<<t[2], {t[1]}>>} ELSE M
+      hit(w) == \E c \in cands : (c[1] = "~" \/ w[1] = c[1]) /\ (({w[2]} \cup Rng(w[3])) \cap c[2]) # {}
+  IN {<<q[1], q[2]>> : q \in Rng(t[6])} = {<<w[1], w[2]>> : w \in {w \in words : hit(w)}}
 Rows(S, P(_), name) == LET bad == {t \in S : ~P(t)} IN
                          IF bad = {} THEN {} ELSE {<<name, CHOOSE t \in bad : TRUE>>}
 Fails(r) ==
   IF "timeout" \in DOMAIN r THEN {<<"Terminates", "-">>} ELSE
   LET words == WordsOf(r)
       P1(t) == ~t[3] \/ CallOK(words, t)
-      P2(t) == t[3] \/ CallOK(words, t) IN
+      P2(t) == t[3] \/ CallOK(words, t)
+      P3(t) == t[4] # "ok" \/ WordnetOK(words, t) IN
     Rows(Rng(r.calls), P1, "InitializedMorphy") \cup Rows(Rng(r.calls), P2, "UninitializedMorphy")
+    \cup Rows(Rng(r.calls), P3, "WordnetFindsUnionOfProposals")
 Judge == LET r == Recs[i]  f == Fails(r) IN
   f = {} \/ PrintT(ToJson([k |-> "FAIL", id |-> r.id, c |-> f]))
 =============================================================================
